@@ -118,14 +118,22 @@ def r1_input_order_sanitised(ctx, rep, R='C10.R1'):
               'the sort key is %s' % [norm(r.value) for r in rets], key='sort_key:names',
               func=fk.qualname, where=ctx.where(fk, fk.node))
     fl = m.func('runner.Runner.ordered_layers')
-    dc = [n for n in ast.walk(fl.node) if isinstance(n, ast.Assign) and
-          isinstance(n.value, ast.DictComp)]
+    # the mapping layer -> name: a dict comprehension, or an empty dict filled in a loop
+    mp, keyexpr = None, None
+    for n in ast.walk(fl.node):
+        if isinstance(n, ast.Assign) and isinstance(n.targets[0], ast.Name) and \
+                isinstance(n.value, ast.DictComp) and \
+                'tests_by_layer_name' in norm(n.value.generators[0].iter):
+            mp, keyexpr = n.targets[0].id, n.value.key
+        if isinstance(n, ast.For) and 'tests_by_layer_name' in norm(n.iter):
+            for st in n.body:
+                if isinstance(st, ast.Assign) and isinstance(st.targets[0], ast.Subscript) and \
+                        isinstance(st.targets[0].value, ast.Name):
+                    mp, keyexpr = st.targets[0].value.id, st.targets[0].slice
     oko = False
-    if len(dc) == 1:
-        d = dc[0].value
-        mp = dc[0].targets[0].id
+    if mp is not None:
         calls = [c for c in own_calls(fl.node) if call_name(c) == 'order_by_bases']
-        oko = isinstance(d.key, ast.Call) and call_name(d.key) == 'layer_from_name' and \
+        oko = isinstance(keyexpr, ast.Call) and call_name(keyexpr) == 'layer_from_name' and \
             len(calls) == 1 and is_name(calls[0].args[0], mp)
         # the name yielded is read back through the mapping by the layer yielded
         ys = [n for n in ast.walk(fl.node) if isinstance(n, ast.Yield) and
@@ -135,9 +143,13 @@ def r1_input_order_sanitised(ctx, rep, R='C10.R1'):
             nm = ys[0].value.elts[0]
             src = [x for x in ast.walk(fl.node) if isinstance(x, ast.Assign) and
                    is_name(x.targets[0], dotted(nm) or '')]
-            oko = len(src) == 1 and isinstance(src[0].value, ast.Subscript) and \
-                is_name(src[0].value.value, mp) and \
-                norm(src[0].value.slice) == norm(ys[0].value.elts[1])
+            oko = (len(src) == 1 and isinstance(src[0].value, ast.Subscript) and
+                   is_name(src[0].value.value, mp) and
+                   norm(src[0].value.slice) == norm(ys[0].value.elts[1])) or \
+                (isinstance(nm, ast.Subscript) and is_name(nm.value, mp) and
+                 norm(nm.slice) == norm(ys[0].value.elts[1]))
+        else:
+            oko = False
     rep.check(oko, R, 'ordered_layers: order_by_bases({layer: name}) and name = mapping[layer]',
               'ordered_layers does not order the layer objects of the registered names through '
               'order_by_bases', key='ordered_layers:map', func=fl.qualname, where=ctx.where(fl, fl.node))
